@@ -49,6 +49,8 @@ func init() {
 				if id == "C05" {
 					RunOrderGuardBits(p, r, "tobinary")
 					r.RequireMin("ORDER-GUARD", 1)
+					RunMemoKey(p, r)
+					r.RequireMin("MEMO-KEY", 1)
 				} else {
 					RunOrderGuardBits(p, r, "tobinary", "partition")
 					r.RequireMin("ORDER-GUARD", 2)
